@@ -48,6 +48,7 @@ AllFaults == {"endNoBegin", "beginNeg", "pointGap", "unknown", "readerr", "error
 CrashFaults == {"endNoBegin", "beginNeg", "unknown"}
 NoFaults == {}
 CloseOnly == {"close", "die"}
+StrayOnly == {"emptyReq", "extraKeepalive"}
 
 \* layout law on its own: split into typed maps and merged again = identity (all field maps over 2 names x 4 types x 2 values)
 Vals == {"0", "1"}
